@@ -152,8 +152,19 @@ class Adapter:
             got = v if res == "ok" else res
         elif op == "signal":
             p = self.objs[e["o"]]
-            with self.adopted(e):
-                got, v = self.outcome(lambda: self.sigcall(p, e["sig"]))
+            # every other delivered signal finds its target stopped (job control, a debugger):
+            # it still gets that signal and no other
+            tgt = w.procs.get(e["pid"])
+            self.nsig = getattr(self, "nsig", 0) + 1
+            stopped = tgt is not None and tgt.state == "S" and self.nsig % 2 == 0
+            if stopped:
+                tgt.state = "T"
+            try:
+                with self.adopted(e):
+                    got, v = self.outcome(lambda: self.sigcall(p, e["sig"]))
+            finally:
+                if stopped and tgt.state == "T":
+                    tgt.state = "S"
             new = [x for x in w.kill_log[nk:] if x[2] is not None]  # delivered ones
             exp = [(e["pid"], e["sig"], e["toInc"])] if e["res"] == "ok" else []
             if [tuple(x) for x in new] != exp:
